@@ -189,6 +189,18 @@ pub fn c19_case(src: &mut Src, obs: &mut Obs) -> CaseResult {
         4 => vec!["type='signal'", "type='method_return'"],
         _ => vec![],
     };
+    // some writes are acknowledged late: the peer has the call (and may answer) before the caller's
+    // send has returned
+    {
+        let mut st = sh.lock().unwrap();
+        for _ in 0..n {
+            if src.chance(70) {
+                st.write_plan.push_back(WPlan::LateAck);
+            } else {
+                st.write_plan.push_back(WPlan::Accept(usize::MAX));
+            }
+        }
+    }
     let by_seen: Arc<Mutex<Vec<u32>>> = Default::default();
     let by_drop_after = if src.bool() { Some(src.below(4)) } else { None };
     for (k, rule) in by_rules.iter().enumerate() {
